@@ -12,7 +12,7 @@ import (
 
 func init() {
 	register("C18", runC18, propMeta{
-		Explanation: "Decides, for every conc block and every interleaving of its goroutines, the fork/join shape of ConcStatement.Evaluate: (J1, rule A4) Add(l) with l equal, as a symbolic sum, to len of the four child slices; four spawner goroutines each range exactly one of the four slices (exhaustive over the slice fields of ConcStatement) and start one worker goroutine per element, which evaluates its own per-iteration copy exactly once and reaches Done once on all paths; Wait() lies on every path from the spawners to any return and to any read of the error list; (J2) every worker's error is tested on all paths and appended to the shared list under the local mutex, and after the join a non-empty list yields a new error, a nil error is returned only with the list known empty; (J3) Statement.Evaluate calls ConcStatement.Evaluate synchronously and returns its error, so the next statement starts after the join; (J4) every index, update, delete or range of a map[string]reflect.Value (the local-variable store and the injected table) happens in package context with the matching mutex (lockVars / lockBase) held; (J5) the listener's four Accept* methods of ConcStatement append their child unconditionally. (J7) the ConcStatement the listener takes off its stack at the end of a conc block is handed to the enclosing statement on every path, so the block that runs has the children that were written. Not decided: effects of the child statements themselves (C02/C03).",
+		Explanation: "Decides, for every conc block and every interleaving of its goroutines, the fork/join shape of ConcStatement.Evaluate: (J1, rule A4) Add(l) with l equal, as a symbolic sum, to len of the four child slices; four spawner goroutines each range exactly one of the four slices (exhaustive over the slice fields of ConcStatement) and start one worker goroutine per element, which evaluates its own per-iteration copy exactly once and reaches Done once on all paths; Wait() lies on every path from the spawners to any return and to any read of the error list; (J2) every worker's error is tested on all paths and appended to the shared list under the local mutex, and after the join a non-empty list yields a new error, a nil error is returned only with the list known empty; (J3) Statement.Evaluate calls ConcStatement.Evaluate synchronously and returns its error, so the next statement starts after the join; (J4) every index, update, delete or range of a map[string]reflect.Value (the local-variable store and the injected table) happens in package context with the matching mutex (lockVars / lockBase) held; (J5) the listener's four Accept* methods of ConcStatement append their child unconditionally. (J8) the evaluators of the four kinds of children defer a function that itself calls recover() and turns a panic into their error result: on the child's own goroutine nothing else could. (J7) the ConcStatement the listener takes off its stack at the end of a conc block is handed to the enclosing statement on every path, so the block that runs has the children that were written. Not decided: effects of the child statements themselves (C02/C03).",
 		Assumptions: []string{"sync.WaitGroup and sync.Mutex contracts"},
 		Trusted:     commonTrusted,
 	})
@@ -224,6 +224,16 @@ func runC18(c *Ctx) {
 	c.ruleListenerAttach("J7-conc-block-compiled-as-written")
 	c.only = nil
 	c.Min("J7-conc-block-compiled-as-written", 1)
+	// J8: a child that faults fails the block, it does not kill the process: each of the four kinds of children
+	// runs on a goroutine of its own, where nothing above it can recover; its evaluator defers a function that
+	// calls recover() itself and turns the panic into the error the block collects (C09-R1 for these four)
+	for _, spec := range [][2]string{{"Assignment", "Evaluate"}, {"FunctionCall", "Evaluate"}, {"MethodCall", "Evaluate"}, {"ThreeLevelCall", "Evaluate"}} {
+		if f := c.MustFn("J8-child-fault-fails-the-block", "internal/base", spec[0], spec[1]); f != nil {
+			ok, why := c.panicSafe(f)
+			c.Check("J8-child-fault-fails-the-block", fnName(f), ok, f.Pos(), "%s", why)
+		}
+	}
+	c.Min("J8-child-fault-fails-the-block", 4)
 	_ = strings.Join
 }
 
